@@ -73,11 +73,16 @@ def decode(d):
         a = {"cx": pos(d), "cy": pos(d), "rx": size(d), "ry": size(d) if not d.chance(1, 12) else 0.0}
     elif kind == "line":
         a = {"x1": pos(d), "y1": pos(d), "x2": pos(d), "y2": pos(d)}
+        if d.chance(1, 8):
+            a[d.choice(["x1", "y1", "x2", "y2"])] = d.choice([2.5, 7.25, -1.5, 3.0]) * 10.0 ** d.choice([-10, -20, -7, -5, -13])
     else:
         n = d.choice([0, 1, 2, 3, 3, 4, 5, 8])
         pts = [gen.point(d, gen.small_coord) for _ in range(n)]
         if n >= 3 and d.chance(1, 4):
             pts[d.below(n)] = list(pts[d.below(n)])  # a repeated point
+        if n >= 1 and d.chance(1, 8):
+            # a coordinate that is written in exponent form (residue of a computation): 2.5E-10, 7.25E-20
+            pts[d.below(n)][d.below(2)] = d.choice([2.5, 7.25, -1.5, 3.0]) * 10.0 ** d.choice([-10, -20, -7, -5, -13])
         a = {"points": pts}
     case = {"kind": kind, "attrs": a, "cells": cells, "route": d.choice(["kw", "args", "dict"]), "A": gen.matrix(d)}
     case["history"] = d.choice([None, "reify", "matmul"])
